@@ -112,8 +112,9 @@ def seq_script(prop, kind, ops, with_used):
         if with_used:
             s.add("iobs c", ("eq", obs_line(kind, cur, True)), sig="iobs@" + kind, shape="o")
             if kind == "idx:opt" and not ever_stored:
-                # "occupies no heap at all": not even reserved capacity
-                s.add("icap c", ("eq", "cap [0, 0]"), cmp="none", sig="free-sequence-holds-capacity@" + kind, shape="cap")
+                # "occupies no heap at all": not even reserved capacity. The oracle pins the exact reply, so the model
+                # may be compared on it too (its `reserveMask` / `withCapMask` decide this): a capacity, but not a policy
+                s.add("icap c", ("eq", "cap [0, 0]"), cmp="exact", sig="free-sequence-holds-capacity@" + kind, shape="cap")
         else:
             exp = obs_line(kind, cur, False)
             s.add("iobs c", ("pred", (lambda e: lambda got, _: None if strip_used(got) == e else "expected " + e)(exp), "faithful sequence"),
